@@ -18,7 +18,9 @@ RULE = ("real child processes `python -m cobald.daemon <config>` with generated 
         "of all three flavours, instrumented classes that append to an event file (constructed-with-running-loop, run "
         "started, heartbeat, cancelled); one SIGINT sent directly to the python pid at a random time after start; every "
         "kind of configuration error (syntax, unknown section, unknown tag, constructor error, missing pipeline, unknown "
-        "extension, missing file); a service failing at a random time; the child's events are replayed on the runtime "
+        "extension, missing file, empty / comment-only / null / {} / [] documents); a service failing at a random time "
+        "with one of 15 failure kinds (Exception subclasses incl. the OSError family without errno, SystemExit, other "
+        "BaseExceptions, a returned value); services and pools that are falsy objects (container-like, __len__ == 0); the child's events are replayed on the runtime "
         "LTS (same acceptor as C01..C12); non-trivial = every case; distinct = distinct configuration text + scenario")
 ASSUMPTIONS = ["interpreter start-up and shutdown, signal delivery and garbage collection are outside the model",
                "the child is given 8 s to exit by itself on an error ('never stays up idle')"]
@@ -49,11 +51,44 @@ def _gc():
         time.sleep(0.02)
 threading.Thread(target=_gc, daemon=True).start()
 
+class VhBase(BaseException):
+    pass
+
+def _fail(name, kind):
+    """how a service fails: (nearly) any exception class, or a value returned from run"""
+    ev("failing", name, kind)
+    if kind == "value":
+        return 0
+    if kind == "SystemExit3":
+        raise SystemExit(3)
+    if kind == "SystemExitMsg":
+        raise SystemExit("fatal: backend lost")
+    if kind == "VhBase":
+        raise VhBase("service %s fails" % name)
+    if kind == "TimeoutError":
+        raise TimeoutError()
+    if kind == "ConnectionError":
+        raise ConnectionError("peer lost")
+    if kind == "OSErrorMsg":
+        raise OSError("no errno here")
+    if kind == "OSErrorErrno0":
+        raise OSError(0, "Success")
+    import builtins
+    raise getattr(builtins, kind)("service %s fails" % name)
+
 class BasePool(Pool):
     supply = demand = utilisation = allocation = 0
     def __init__(self, name="pool", **kw):
         self.name = name
         ev("constructed", name, _loop_running())
+
+def _falsy(cls):
+    """the same class, but an instance is falsy (a container-like pool without children)"""
+    class F(cls):
+        def __len__(self):
+            return 0
+    F.__name__ = F.__qualname__ = cls.__name__ + "Falsy"
+    return F
 
 def _mk(base, flavour, fname):
     if flavour is None:
@@ -68,9 +103,9 @@ def _mk(base, flavour, fname):
         @service(flavour=flavour)
         class C(base):
             supply = demand = utilisation = allocation = 0
-            def __init__(self, target, name="x", fail_after=None, **kw):
+            def __init__(self, target, name="x", fail_after=None, fail_kind="ValueError", **kw):
                 base.__init__(self, target)
-                self.name, self.fail_after = name, fail_after
+                self.name, self.fail_after, self.fail_kind = name, fail_after, fail_kind
                 ev("constructed", name, _loop_running())
             def run(self):
                 ev("run-started", self.name, threading.get_ident())
@@ -78,8 +113,7 @@ def _mk(base, flavour, fname):
                 while True:
                     ev("beat", self.name)
                     if self.fail_after is not None and time.monotonic() - t0 >= self.fail_after:
-                        ev("failing", self.name)
-                        raise ValueError("service %s fails" % self.name)
+                        return _fail(self.name, self.fail_kind)
                     time.sleep(0.02)
         return C
     sleep = asyncio.sleep if fname == "aio" else trio.sleep
@@ -87,9 +121,9 @@ def _mk(base, flavour, fname):
     @service(flavour=flavour)
     class C(base):
         supply = demand = utilisation = allocation = 0
-        def __init__(self, target, name="x", fail_after=None, **kw):
+        def __init__(self, target, name="x", fail_after=None, fail_kind="ValueError", **kw):
             base.__init__(self, target)
-            self.name, self.fail_after = name, fail_after
+            self.name, self.fail_after, self.fail_kind = name, fail_after, fail_kind
             ev("constructed", name, _loop_running())
         async def run(self):
             ev("run-started", self.name, threading.get_ident())
@@ -98,8 +132,7 @@ def _mk(base, flavour, fname):
                 while True:
                     ev("beat", self.name)
                     if self.fail_after is not None and time.monotonic() - t0 >= self.fail_after:
-                        ev("failing", self.name)
-                        raise ValueError("service %s fails" % self.name)
+                        return _fail(self.name, self.fail_kind)
                     await sleep(0.02)
             except cancelled:
                 ev("cancelled", self.name)
@@ -113,11 +146,19 @@ DecoAio = _mk(PoolDecorator, asyncio, "aio")
 DecoTrio = _mk(PoolDecorator, trio, "trio")
 DecoThr = _mk(PoolDecorator, threading, "thr")
 DecoPlain = _mk(PoolDecorator, None, None)
+for _n in ("CtlAio", "CtlTrio", "CtlThr", "DecoAio", "DecoTrio", "DecoThr", "DecoPlain"):
+    globals()[_n + "Falsy"] = _falsy(globals()[_n])
+BasePoolFalsy = _falsy(BasePool)
 def boom(*a, **k):
     raise RuntimeError("constructor fails")
 '''
 
 FLV = ["Aio", "Trio", "Thr"]
+FAIL_KINDS = ["ValueError", "ValueError", "KeyError", "LookupError", "RuntimeError", "AssertionError", "TimeoutError",
+              "ConnectionError", "OSErrorMsg", "OSErrorErrno0", "SystemExit3", "SystemExitMsg", "VhBase", "GeneratorExit", "value"]
+BASE_KINDS = ("SystemExit3", "SystemExitMsg", "VhBase", "GeneratorExit")
+EMPTY_DOCS = {"empty-file": "", "only-comments": "# nothing here\n# at all\n", "empty-document": "---\n...\n",
+              "null-document": "null\n", "empty-mapping": "{}\n", "empty-list": "[]\n", "scalar-document": "42\n"}
 
 
 def gen_case(rng, i):
@@ -126,9 +167,10 @@ def gen_case(rng, i):
     elems = []
     for j in range(n - 1):
         cls = ("Ctl" if j == 0 else "Deco") + rng.choice(FLV + (["Plain"] if j > 0 else []))
-        elems.append({"cls": cls, "name": "e%d" % j, "svc": not cls.endswith("Plain")})
+        elems.append({"cls": cls, "name": "e%d" % j, "svc": not cls.endswith("Plain"), "falsy": rng.random() < 0.15})
     fmt = rng.choice(["yaml", "yaml", "py"])
-    case = {"kind": kind, "fmt": fmt, "elems": elems, "logging": rng.random() < 0.3, "delay": rng.choice([0.0, 0.05, 0.15, 0.3])}
+    case = {"kind": kind, "fmt": fmt, "elems": elems, "logging": rng.random() < 0.3, "delay": rng.choice([0.0, 0.05, 0.15, 0.3]),
+            "falsy_pool": rng.random() < 0.15}
     if kind == "failing-service":
         svcs = [e for e in elems if e["svc"]]
         if not svcs:
@@ -136,8 +178,9 @@ def gen_case(rng, i):
             svcs = [elems[0]]
         f = rng.choice(svcs)
         f["fail_after"] = rng.choice([0.0, 0.05, 0.2])
+        f["fail_kind"] = rng.choice(FAIL_KINDS)
     if kind == "bad-config":
-        case["error"] = rng.choice(["syntax", "unknown-section", "unknown-tag", "ctor-error", "no-pipeline", "missing-file", "python-tag"])
+        case["error"] = rng.choice(["syntax", "unknown-section", "unknown-tag", "ctor-error", "no-pipeline", "missing-file", "python-tag"] + sorted(EMPTY_DOCS))
         if fmt == "py":
             case["error"] = rng.choice(["syntax", "ctor-error", "missing-file", "name-error"])
     if kind == "bad-ext":
@@ -145,12 +188,19 @@ def gen_case(rng, i):
     return case
 
 
+def cls_of(e):
+    return e["cls"] + ("Falsy" if e.get("falsy") else "")
+
+
 def config_text(case):
     elems = case["elems"]
     err = case.get("error")
+    if err in EMPTY_DOCS:
+        return EMPTY_DOCS[err]
     if case["fmt"] == "py":
         lines = ["from vh_c13mod import *"]
-        chain = " >> ".join(["%s.s(name=%r%s)" % (e["cls"], e["name"], (", fail_after=%r" % e["fail_after"]) if "fail_after" in e else "") for e in elems] + ["BasePool(name='pool')"])
+        chain = " >> ".join(["%s.s(name=%r%s)" % (cls_of(e), e["name"], (", fail_after=%r, fail_kind=%r" % (e["fail_after"], e.get("fail_kind", "ValueError"))) if "fail_after" in e else "") for e in elems]
+                            + ["BasePool%s(name='pool')" % ("Falsy" if case.get("falsy_pool") else "")])
         if err == "ctor-error":
             chain = "boom() >> " + chain
         if err == "name-error":
@@ -167,10 +217,11 @@ def config_text(case):
     if err != "no-pipeline":
         lines.append("pipeline:")
         for e in elems:
-            lines.append("  - __type__: vh_c13mod.%s" % e["cls"])
+            lines.append("  - __type__: vh_c13mod.%s" % cls_of(e))
             lines.append("    name: %s" % e["name"])
             if "fail_after" in e:
                 lines.append("    fail_after: %r" % e["fail_after"])
+                lines.append("    fail_kind: %s" % e.get("fail_kind", "ValueError"))
             if err == "bad-kwarg" and e is elems[0]:
                 lines.append("    target: 5")
         if err == "unknown-tag":
@@ -179,7 +230,7 @@ def config_text(case):
             lines.append("  - !!python/object/apply:os.getcwd []")
         if err == "ctor-error":
             lines.append("  - __type__: vh_c13mod.boom")
-        lines.append("  - __type__: vh_c13mod.BasePool")
+        lines.append("  - __type__: vh_c13mod.BasePool%s" % ("Falsy" if case.get("falsy_pool") else ""))
     else:
         lines.append("__config_test: {}")
     if err == "syntax":
@@ -227,7 +278,7 @@ def run_child(args):
     finally:
         if p.poll() is None:
             p.kill()
-    return {"status": status, "stderr": err[-3000:], "events": open(evf).read().splitlines(), "sigint_sent": sent is not None}
+    return {"status": status, "stderr": err[-3000:], "error_logged": any(w in err for w in ("Error", "error", "Traceback", "failed", "Exception", "aborted", "CRITICAL")), "events": open(evf).read().splitlines(), "sigint_sent": sent is not None}
 
 
 def to_trace(case, res):
@@ -237,7 +288,7 @@ def to_trace(case, res):
     events = [["adopt", 0, "aio"], ["acceptBegin", 0]]
     started_loader = False
     pids = [0]
-    failing = None
+    failing = failing_out = None
     thr_tids = {}
     for line in res["events"]:
         parts = line.split()
@@ -255,8 +306,11 @@ def to_trace(case, res):
             events.append(["start", pid, tid])
         elif parts[0] == "failing" and parts[1] in names:
             pid, _ = names[parts[1]]
-            events.append(["bodyEnd", pid, "exc"])
-            failing = pid if failing is None else failing
+            kind = parts[2] if len(parts) > 2 else "ValueError"
+            out = "value" if kind == "value" else ("sysExit" if kind.startswith("SystemExit") else ("baseExc" if kind in BASE_KINDS else "exc"))
+            events.append(["bodyEnd", pid, out])
+            if failing is None:
+                failing, failing_out = pid, out
         elif parts[0] == "cancelled" and parts[1] in names:
             events.append(["unwound", names[parts[1]][0]])
         elif parts[0] == "sigint":
@@ -273,7 +327,7 @@ def to_trace(case, res):
             failing = 0
         else:
             events.append(["unwound", 0])
-        events.append(["endRun", "raisedRT", failing])
+        events.append(["endRun", "raisedBase" if failing_out in ("baseExc", "sysExit") else "raisedRT", failing])
     return pids, events
 
 
@@ -308,14 +362,14 @@ def oracle(case, res):
             out.append(("stays-up-idle:%s" % (case.get("error") or case["kind"]), "the daemon neither ran the pipeline nor exited (%s)" % (case.get("error") or case["kind"])))
         elif res["status"] == 0:
             out.append(("error-exit-zero:%s" % (case.get("error") or case["kind"]), "%s but exit status 0" % (case.get("error") or case["kind"])))
-        elif not any(w in res["stderr"] for w in ("Error", "error", "Traceback", "failed", "Exception")):
+        elif not res["error_logged"]:
             out.append(("no-error-logged", "non-zero exit without an error on the log"))
     return out
 
 
 def run(ctx):
     rng = ctx.rng("daemon")
-    cases = [gen_case(rng, i) for i in range(ctx.n(32, 400))]
+    cases = [gen_case(rng, i) for i in range(ctx.n(96, 600))]
     tmp = tempfile.mkdtemp(prefix="vh-c13-")
     try:
         open(os.path.join(tmp, "vh_c13mod.py"), "w").write(MODULE)
@@ -326,7 +380,7 @@ def run(ctx):
     traces = [to_trace(c, r) for c, r in zip(cases, results)]
     answers = engine.accept_traces(traces) if ctx.lean_status.get("driver_ok") else [{"accepted": True}] * len(cases)
     for c, r, tr, a in zip(cases, results, traces, answers):
-        small = {"kind": c["kind"], "fmt": c["fmt"], "error": c.get("error"), "ext": c.get("ext"), "elems": [(e["cls"], e.get("fail_after")) for e in c["elems"]], "delay": c["delay"]}
+        small = {"kind": c["kind"], "fmt": c["fmt"], "error": c.get("error"), "ext": c.get("ext"), "elems": [(cls_of(e), e.get("fail_after"), e.get("fail_kind")) for e in c["elems"]], "delay": c["delay"], "falsy_pool": c.get("falsy_pool")}
         ctx.count("daemon-processes", small, True)
         ctx.tally("kind:%s" % (c.get("error") or c["kind"]))
         ctx.tally("status:%s" % r["status"])
